@@ -1,6 +1,6 @@
 // Command c05 traces the indexed heaps (indexed binary, binomial, Fibonacci).
 //
-//	header:  <B|N|F> <min|max> <cap>
+//	header:  <B|N|F> <min|max|sub|sub3|rsub> <cap>   (sub: a-b, sub3: 3*(a-b), rsub: b-a)
 //	ops:     I i k v -> t|f        Insert            C i k -> t|f      ChangeKey
 //	         D -> i,k,v,t|-1,0,0,f Delete            X i -> k,v,t|0,0,f DeleteIndex
 //	         A -> -                DeleteAll         P -> i,k,v,t|..   Peek
@@ -30,9 +30,18 @@ import (
 var impls = []string{"B", "N", "F"}
 
 func mk(impl, ord string, cap int) heap.IndexedHeap[int, int] {
+	// the contract of generic.CompareFunc is negative / zero / positive: besides the library's
+	// -1/0/1 comparators, use comparators that return magnitudes
 	cmp := generic.NewCompareFunc[int]()
-	if ord == "max" {
+	switch ord {
+	case "max":
 		cmp = generic.NewReverseCompareFunc[int]()
+	case "sub":
+		cmp = func(a, b int) int { return a - b }
+	case "sub3":
+		cmp = func(a, b int) int { return 3 * (a - b) }
+	case "rsub":
+		cmp = func(a, b int) int { return b - a }
 	}
 	eq := generic.NewEqualFunc[int]()
 	switch impl {
@@ -313,7 +322,7 @@ func random(w *tr.W, r *rng.R, cases int, bigCaps bool) {
 		ops = append(ops, "V")
 		ops = append(ops, battery(cap, keys, vals)...)
 		ops = append(ops, drain(cap)...)
-		ord := []string{"min", "max"}[r.Intn(2)]
+		ord := []string{"min", "max", "sub", "sub3", "rsub"}[r.Intn(5)]
 		for _, impl := range impls {
 			runCase(w, impl, ord, cap, ops)
 		}
@@ -325,9 +334,9 @@ func random(w *tr.W, r *rng.R, cases int, bigCaps bool) {
 func cascade(w *tr.W, r *rng.R, cases int) {
 	for c := 0; c < cases; c++ {
 		cap := []int{9, 10, 17, 18, 33, 34}[r.Intn(6)]
-		ord := []string{"min", "max"}[r.Intn(2)]
+		ord := []string{"min", "max", "sub", "sub3", "rsub"}[r.Intn(5)]
 		sign := 1
-		if ord == "max" {
+		if ord == "max" || ord == "rsub" {
 			sign = -1
 		}
 		var ops []string
@@ -401,13 +410,16 @@ func main() {
 		// full alphabet (invalid indices -1, cap, cap+3 included), short
 		exhaustive(w, 3, alphabet([]int{0, 1, 2}, []int{-1, 3, 6}, []int{1, 2, 3}), 2, both, []int{1, 2, 3}, []int{10, 11, 12, 21, 32, 7})
 		exhaustive(w, 1, alphabet([]int{0}, []int{-1, 1, 4}, []int{1, 2}), 3, both, []int{1, 2}, []int{10, 20, 7})
+		// magnitude comparators (a-b, 3*(a-b), b-a): keys 1 and 4 so that results are +-3, +-9
+		exhaustive(w, 2, alphabet([]int{0, 1}, []int{2}, []int{1, 4}), 3, []string{"sub", "sub3", "rsub"}, []int{1, 4}, []int{10, 41})
 		if thorough {
 			exhaustive(w, 3, alphabet([]int{0, 1, 2}, []int{-1, 3}, []int{1, 2, 3}), 3, both, []int{1, 2, 3}, []int{10, 11, 12, 21, 32, 7})
-			exhaustive(w, 3, alphabet([]int{0, 1, 2}, nil, []int{1, 2}), 5, []string{"min"}, []int{1, 2}, []int{10, 21})
-			exhaustive(w, 4, alphabet([]int{1, 3}, nil, []int{1, 2}), 6, []string{"max"}, []int{1, 2}, []int{11, 23})
+			exhaustive(w, 3, alphabet([]int{0, 1, 2}, nil, []int{1, 2}), 4, []string{"min"}, []int{1, 2}, []int{10, 21})
+			exhaustive(w, 4, noA(alphabet([]int{1, 3}, nil, []int{1, 2})), 5, []string{"max"}, []int{1, 2}, []int{11, 23})
+			exhaustive(w, 3, alphabet([]int{0, 1, 2}, nil, []int{1, 4}), 3, []string{"sub", "rsub"}, []int{1, 4}, []int{10, 41})
 		} else {
 			// valid indices only, longer
-			exhaustive(w, 3, alphabet([]int{0, 1, 2}, nil, []int{1, 2}), 3, []string{"min"}, []int{1, 2}, []int{10, 21})
+			exhaustive(w, 3, alphabet([]int{0, 1, 2}, nil, []int{1, 2}), 3, []string{"sub3"}, []int{1, 2}, []int{10, 21})
 			exhaustive(w, 4, noA(alphabet([]int{1, 3}, nil, []int{1, 2})), 4, []string{"max"}, []int{1, 2}, []int{11, 23})
 		}
 	case "random":
